@@ -29,6 +29,9 @@ inductive Elem where
   | num (ty : Nat) (x : Int)          -- builtin type id 1..11, payload
   | str (b : Option Bytes)            -- String (12): UTF-8 bytes, `none` = null
   | bstr (b : Option Bytes)           -- ByteString (15)
+  | nodeId (n : Nat)                  -- NodeId (17), namespace 0 numeric
+  | qname                             -- QualifiedName (20), content irrelevant
+  | ltext                             -- LocalizedText (21), content irrelevant
 deriving Repr, DecidableEq
 
 inductive Val where
@@ -42,6 +45,9 @@ def Elem.ty : Elem → Nat
   | .num t _ => t
   | .str _ => 12
   | .bstr _ => 15
+  | .nodeId _ => 17
+  | .qname => 20
+  | .ltext => 21
 
 def Val.scalarTy : Val → Option Nat
   | .one e => some e.ty
@@ -220,7 +226,7 @@ def read := readWith true
 /-! ### writing -/
 
 def parentDT : Nat → Option Nat
-  | 1 => some 24 | 12 => some 24 | 15 => some 24 | 26 => some 24
+  | 1 => some 24 | 12 => some 24 | 15 => some 24 | 26 => some 24 | 17 => some 24 | 20 => some 24 | 21 => some 24
   | 27 => some 26 | 28 => some 26 | 10 => some 26 | 11 => some 26
   | 2 => some 27 | 4 => some 27 | 6 => some 27 | 8 => some 27
   | 3 => some 28 | 5 => some 28 | 7 => some 28 | 9 => some 28
@@ -299,5 +305,168 @@ def write (var : Option Var) (attr : Nat) (range : Bytes) (x : Option Val) :
         else match setRangeOf v.value r x with
           | .ok nv => (.good, some { v with value := nv })
           | .error s => (s, var)
+
+/-! ### nodes of every class, every attribute -/
+
+/-- a node as far as Read / Write can observe it.  `var` is the variable part (data type, value
+rank, user access level, value) — meaningful for Variables, data type / rank also for VariableTypes.
+`opt` lists the optional attributes that currently have a value: 5 Description, 7 UserWriteMask,
+10 InverseName, 13 Value of a VariableType, 16 ArrayDimensions, 19 MinimumSamplingInterval. -/
+structure Node where
+  cls : Nat
+  var : Var
+  writeMask : Option Nat
+  opt : List Nat
+deriving Repr, DecidableEq
+
+/-- which attributes `get_attribute_max_age` answers, per node class -/
+def hasAttr (n : Node) (a : Nat) : Bool :=
+  a == 1 || a == 2 || a == 3 || a == 4 || (a == 5 && n.opt.contains 5) || (a == 6 && n.writeMask.isSome) ||
+  (a == 7 && n.opt.contains 7) ||
+  (match n.cls with
+   | 1 => a == 12
+   | 2 => a == 13 || a == 14 || a == 15 || a == 17 || a == 18 || a == 20 ||
+          (a == 16 && n.opt.contains 16) || (a == 19 && n.opt.contains 19)
+   | 4 => a == 21 || a == 22
+   | 8 => a == 8
+   | 16 => a == 8 || a == 14 || a == 15 || (a == 13 && n.opt.contains 13) || (a == 16 && n.opt.contains 16)
+   | 32 => a == 8 || a == 9 || (a == 10 && n.opt.contains 10)
+   | 64 => a == 8
+   | 128 => a == 11 || a == 12
+   | _ => false)
+
+/-- bit of `WriteMask` guarding attribute `a` in `is_writable` (none: never writable) -/
+def maskBit (cls a : Nat) : Option Nat :=
+  match a with
+  | 1 => some 14 | 2 => some 13 | 3 => some 2 | 4 => some 6 | 5 => some 5 | 6 => some 20 | 7 => some 18
+  | 8 => some 11 | 9 => some 15 | 10 => some 10 | 11 => some 3 | 12 => some 7
+  | 13 => if cls = 16 then some 21 else none
+  | 14 => some 4 | 15 => some 19 | 16 => some 1 | 17 => some 0 | 18 => some 16 | 19 => some 12 | 20 => some 9
+  | 21 => some 8 | 22 => some 17 | 23 => some 22 | 24 => some 23 | 26 => some 24 | 27 => some 25
+  | _ => none
+
+/-- `is_writable` -/
+def isWritable (n : Node) (a : Nat) : Bool :=
+  if n.cls = 2 ∧ a = 13 then canWrite n.var
+  else match n.writeMask, maskBit n.cls a with
+    | some m, some b => m / 2 ^ b % 2 = 1
+    | _, _ => false
+
+/-- `is_readable`: only variables carry a user access level -/
+def isReadable (n : Node) : Bool := if n.cls = 2 then canRead n.var else true
+
+/-- `read_node_value` -/
+def readNodeWith (checked : Bool) (node : Option Node) (attr : Nat) (range : Bytes) : ReadOut :=
+  match node with
+  | none => .status .badNodeIdUnknown
+  | some n =>
+    if n.cls = 2 ∧ attr = 13 then readWith checked (some n.var) attr range
+    else if !attrValid attr then .status .badAttributeIdInvalid
+    else match parseRange range with
+      | none => .status .badIndexRangeInvalid
+      | some r =>
+        if !isReadable n then .status .badNotReadable
+        else if attr ≠ 13 ∧ r ≠ .none then .status .badIndexRangeNoData
+        else if hasAttr n attr then .other else .status .badAttributeIdInvalid
+
+def readNode := readNodeWith true
+
+def isNum (t : Nat) : Val → Bool
+  | .one (.num t' _) => t' == t
+  | _ => false
+
+def insertOpt (l : List Nat) (a : Nat) : List Nat := if l.contains a then l else a :: l
+
+/-- what a successful `set_attribute` changes, as far as Read / Write can observe it later -/
+inductive Upd where
+  | nothing
+  | dataType (d : Nat)
+  | rank (r : Int)
+  | access (a : Nat)
+  | opt (k : Nat)            -- an optional attribute now has a value
+  | mask (m : Nat)
+deriving Repr, DecidableEq
+
+def applyUpd (n : Node) : Upd → Node
+  | .nothing => n
+  | .dataType d => { n with var := { n.var with dataType := d } }
+  | .rank r => { n with var := { n.var with rank := r } }
+  | .access a => { n with var := { n.var with access := a } }
+  | .opt k => { n with opt := insertOpt n.opt k }
+  | .mask m => { n with writeMask := some m }
+
+def allU32 (vals : List Elem) : Bool := vals.all fun e => match e with | .num 7 _ => true | _ => false
+
+/-- `set_attribute` of the node classes for an attribute other than a Variable's Value: the class
+specific attributes first, then `Base::set_attribute` -/
+def setAttr? (cls : Nat) (a : Nat) (x : Val) : Except Status Upd :=
+  let mism : Except Status Upd := .error .badTypeMismatch
+  let ok : Except Status Upd := .ok .nothing
+  let bool := isNum 1 x
+  let specific : Option (Except Status Upd) :=
+    match cls, a with
+    | 2, 14 => some (match x with | .one (.nodeId d) => .ok (.dataType d) | _ => mism)
+    | 2, 20 => some (if bool then ok else mism)
+    | 2, 15 => some (match x with | .one (.num 6 r) => .ok (.rank r) | _ => mism)
+    | 2, 17 => some (if isNum 3 x then ok else mism)
+    | 2, 18 => some (match x with | .one (.num 3 b) => .ok (.access (b.toNat % 16)) | _ => mism)
+    | 2, 16 => some (match x with | .arr _ vals => if allU32 vals then .ok (.opt 16) else mism | _ => mism)
+    | 2, 19 => some (if isNum 11 x then .ok (.opt 19) else mism)
+    | 1, 12 => some (if isNum 3 x then ok else mism)
+    | 4, 21 => some (if bool then ok else mism)
+    | 4, 22 => some (if bool then ok else mism)
+    | 8, 8 => some (if bool then ok else mism)
+    | 16, 14 => some (match x with | .one (.nodeId d) => .ok (.dataType d) | _ => mism)
+    | 16, 8 => some (if bool then ok else mism)
+    | 16, 15 => some (match x with | .one (.num 6 r) => .ok (.rank r) | _ => mism)
+    | 16, 16 => some (match x with | .arr _ vals => if allU32 vals then .ok (.opt 16) else mism | _ => mism)
+    | 32, 9 => some (if bool then ok else mism)
+    | 32, 8 => some (if bool then ok else mism)
+    | 32, 10 => some (match x with | .one .ltext => .ok (.opt 10) | _ => mism)
+    | 64, 8 => some (if bool then ok else mism)
+    | 128, 12 => some (if isNum 3 x then ok else mism)
+    | 128, 11 => some (if bool then ok else mism)
+    | _, _ => none
+  match specific with
+  | some r => r
+  | none =>
+    match a with
+    | 2 => if isNum 6 x then ok else mism
+    | 1 => (match x with | .one (.nodeId _) => ok | _ => mism)
+    | 3 => (match x with | .one .qname => ok | _ => mism)
+    | 4 => (match x with | .one .ltext => ok | _ => mism)
+    | 5 => (match x with | .one .ltext => .ok (.opt 5) | _ => mism)
+    | 6 => (match x with | .one (.num 7 m) => .ok (.mask m.toNat) | _ => mism)
+    | 7 => (match x with | .one (.num 7 _) => .ok (.opt 7) | _ => mism)
+    | _ => .error .badAttributeIdInvalid
+
+/-- status and node after `set_attribute` (an error leaves the node as it is) -/
+def setAttribute (n : Node) (a : Nat) (x : Val) : Status × Node :=
+  match setAttr? n.cls a x with
+  | .ok u => (.good, applyUpd n u)
+  | .error st => (st, n)
+
+/-- `write_node_value` for a node of any class.  `rangeNull`: the index range string is null (an
+empty, non-null string is "supplied" for a non-Value attribute). -/
+def writeNode (node : Option Node) (attr : Nat) (range : Bytes) (rangeNull : Bool) (x : Option Val) :
+    Status × Option Node :=
+  match node with
+  | none => (.badNodeIdUnknown, none)
+  | some n =>
+    if n.cls = 2 ∧ attr = 13 then
+      match write (some n.var) attr range x with
+      | (st, some v) => (st, some { n with var := v })
+      | (st, none) => (st, node)
+    else if !attrValid attr then (.badAttributeIdInvalid, node)
+    else if !isWritable n attr then (.badNotWritable, node)
+    else if attr ≠ 13 ∧ !rangeNull then (.badWriteNotSupported, node)
+    else match parseRange range with
+      | none => (.badIndexRangeInvalid, node)
+      | some _ =>
+        match x with
+        | none => (.badTypeMismatch, node)
+        | some x =>
+          if attr = 13 then (.badAttributeIdInvalid, node)   -- Value of a non-Variable: rejected at set
+          else let r := setAttribute n attr x; (r.1, some r.2)
 
 end OpcuaVerif.C32
